@@ -79,12 +79,13 @@ func (w *World) VerifyUnit(fn *ssa.Function, con *Contract) *UnitResult {
 	}()
 	tb := x.tb
 	x.top0 = tb.Var("top0", 64)
-	x.fact(tb.Cmp("bvult", x.top0, tb.BV(64, 1<<61)))
-	st := &State{env: map[ssa.Value]*Val{}, heaps: map[string]*Mem{}, pc: tb.True, top: x.top0}
+	x.fact(tb.Cmp("bvult", x.top0, tb.BV(64, calleeBase)))
+	st := &State{env: map[ssa.Value]*Val{}, heaps: map[string]*Mem{}, pc: tb.True, base: tb.True, top: tb.BV(64, calleeBase)}
 	var args []*Val
 	for _, p := range fn.Params {
 		v := x.fresh(p.Type(), "in_"+p.Name())
-		for _, f := range x.validity(v, x.top0) {
+		top0 := x.top0
+		for _, f := range x.validity(v, func(r *Term) *Term { return tb.Cmp("bvule", r, top0) }) {
 			x.fact(f)
 		}
 		args = append(args, v)
@@ -126,7 +127,7 @@ func (w *World) VerifyUnit(fn *ssa.Function, con *Contract) *UnitResult {
 		}
 	}
 	// vacuity guard: the assumptions so far must be satisfiable
-	x.obligs = append(x.obligs, &Oblig{Name: name + "#pre-sat", Kind: "pre-sat", Func: name, PC: st.pc, Goal: tb.False, NHyps: len(x.assumes), ExpectSat: true})
+	x.obligs = append(x.obligs, &Oblig{Name: name + "#pre-sat", Kind: "pre-sat", Func: name, PC: x.full(st), Goal: tb.False, NHyps: len(x.assumes), ExpectSat: true})
 	if con != nil && con.Trusted {
 		x.trusted["trusted contract (body not verified): "+con.Key] = true
 		res.Obligs = x.obligs
@@ -148,7 +149,7 @@ func (w *World) VerifyUnit(fn *ssa.Function, con *Contract) *UnitResult {
 			x.oblige(out, "post", fmt.Sprintf("post.%d", k), fn.Pos(), g)
 		}
 		if !out.pc.IsFalse() {
-			x.obligs = append(x.obligs, &Oblig{Name: name + "#reach.return", Kind: "reach", Func: name, PC: out.pc, Goal: tb.False, NHyps: len(x.assumes), ExpectSat: true})
+			x.obligs = append(x.obligs, &Oblig{Name: name + "#reach.return", Kind: "reach", Func: name, PC: x.full(out), Goal: tb.False, NHyps: len(x.assumes), ExpectSat: true})
 		}
 	}
 	res.Obligs = x.obligs
